@@ -455,6 +455,27 @@ void directedCases(vh::Rng& r) {
     directedCase(r, K_Gravity, "setBodyIsExcluded_true", [](Sys&, FRec& f, State& s, vh::Rng&) { f.grav.setBodyIsExcluded(s, MobilizedBodyIndex(1), true); return G0(201, false, "setBodyIsExcluded"); }, gravAxis);
     directedCase(r, K_Gravity, "setBodyIsExcluded_false", [](Sys&, FRec& f, State& s, vh::Rng&) { f.grav.setBodyIsExcluded(s, MobilizedBodyIndex(2), false); return G0(201, false, "setBodyIsExcluded"); },
                  [](Sys&, FRec& f) { f.grav.setDefaultDownDirection(UnitVec3(-YAxis)); f.grav.setDefaultMagnitude(9.8); f.grav.setDefaultBodyIsExcluded(MobilizedBodyIndex(2), true); });
+    // the per-body precalculated entries of the force cache (zero for excluded bodies and at zero magnitude, NaN
+    // otherwise): change the exclusion while the magnitude is zero, realize, then raise the magnitude
+    auto gravZeroExcl2 = [](Sys&, FRec& f) { f.grav.setDefaultDownDirection(UnitVec3(-YAxis)); f.grav.setDefaultMagnitude(0); f.grav.setDefaultBodyIsExcluded(MobilizedBodyIndex(2), true); };
+    directedCase(r, K_Gravity, "setBodyIsExcluded_false_atZeroMagnitude_then_setMagnitude", [](Sys& S, FRec& f, State& s, vh::Rng&) {
+        f.grav.setBodyIsExcluded(s, MobilizedBodyIndex(2), false);
+        std::printf("I %s\nO obs %s\n", G0(201, true, "setBodyIsExcluded").c_str(), obs(S, s).c_str());
+        S.sys.realize(s, Stage::Acceleration); std::printf("I realize 8\nO obs %s\n", obs(S, s).c_str());
+        f.grav.setMagnitude(s, 6.5); return G0(202, false, "setMagnitude"); }, gravZeroExcl2);
+    directedCase(r, K_Gravity, "setBodyIsExcluded_true_atZeroMagnitude_then_setMagnitude", [](Sys& S, FRec& f, State& s, vh::Rng&) {
+        f.grav.setBodyIsExcluded(s, MobilizedBodyIndex(1), true);
+        std::printf("I %s\nO obs %s\n", G0(201, true, "setBodyIsExcluded").c_str(), obs(S, s).c_str());
+        S.sys.realize(s, Stage::Acceleration); std::printf("I realize 8\nO obs %s\n", obs(S, s).c_str());
+        f.grav.setMagnitude(s, 6.5); return G0(202, false, "setMagnitude"); }, gravZero);
+    directedCase(r, K_Gravity, "setMagnitude_toZero_then_setBodyIsExcluded_false_then_setMagnitude", [](Sys& S, FRec& f, State& s, vh::Rng&) {
+        f.grav.setMagnitude(s, 0);
+        std::printf("I %s\nO obs %s\n", G0(201, true, "setMagnitude").c_str(), obs(S, s).c_str());
+        f.grav.setBodyIsExcluded(s, MobilizedBodyIndex(2), false);
+        std::printf("I %s\nO obs %s\n", G0(202, true, "setBodyIsExcluded").c_str(), obs(S, s).c_str());
+        (void)f.grav.getBodyForces(s); std::printf("I gravQuery 0\nO obs %s\n", obs(S, s).c_str());
+        f.grav.setMagnitude(s, 4.5); return G0(203, false, "setMagnitude"); },
+        [](Sys&, FRec& f) { f.grav.setDefaultDownDirection(UnitVec3(-YAxis)); f.grav.setDefaultMagnitude(9.8); f.grav.setDefaultBodyIsExcluded(MobilizedBodyIndex(2), true); });
     // enable / disable of every element type (also the ones whose parameters are construction-time constants)
     static const Kind all[] = { K_TPSpring, K_TPDamper, K_TPConst, K_ConstForce, K_ConstTorque, K_GlobalDamper, K_UniformGravity,
         K_Bushing, K_MobSpring, K_MobDamper, K_MobConst, K_MobStop, K_MobDiscrete, K_Discrete, K_Gravity, K_ProbePos, K_ProbeVel,
